@@ -265,6 +265,15 @@ func (e *specEnv) addrOf(x ast.Expr) Val {
 				return Val{P: &Ptr{Kind: PField, Base: &base, Field: i, Elem: st.Field(i).Type()}, Typ: types.NewPointer(st.Field(i).Type())}
 			}
 		}
+	case *ast.IndexExpr:
+		// &s[i]: the address of a slice element (same representation as the SSA
+		// IndexAddr instruction produces)
+		base := e.expr(k.X)
+		if sl, ok := base.Typ.Underlying().(*types.Slice); ok && base.T != nil {
+			iv := e.expr(k.Index)
+			idx := e.c().idxOf(iv.T, iv.Typ)
+			return Val{P: &Ptr{Kind: PSliceElem, Base: &base, Idx: idx, Elem: sl.Elem()}, Typ: types.NewPointer(sl.Elem())}
+		}
 	}
 	e.fail("unsupported address-of")
 	return Val{}
@@ -761,6 +770,11 @@ func (e *specEnv) callExpr(k *ast.CallExpr) Val {
 				return Val{T: Forall([]*Term{r}, Implies(Not(Eq(r, c.slBase(v.T))), Eq(Select(h1, r), Select(h0, r)))), Typ: boolT}
 			}
 			e.fail("only_changes() needs a map or a slice")
+		case "alloctop":
+			// alloctop(): the allocation frontier at this point - everything
+			// allocated from here on has block(x) >= alloctop() (used to say "x
+			// was allocated after that point", e.g. in this loop iteration)
+			return Val{T: c.allocTop(e.st), Typ: types.Typ[types.Uintptr]}
 		case "offset", "block":
 			// offset(s) / block(s): position of slice s inside its backing array and
 			// the identity of that array (two slices with the same block are views
